@@ -378,8 +378,37 @@ def spelled_edit_cases():
     return cases
 
 
+def recalc_cases():
+    """Scenario family for the recalculation option = the example programs of `lean/MxModel/Props/C06.lean` (`kEnv`):
+    c0 = 1, c1 = c0() * 10, c2 = c1() + 1 if c0() < 5 else 0, c3 = c1() + 100, c4 = 7, c5 = 1 if c0() < 5 else raise,
+    c6 = c0() + 100.  Two leaves recomputed at once; a former non-leaf dependent that the new computation does not
+    call; a failing recomputation with one target (compared) and with two (the comparison stops: target order)."""
+    L, C = (lambda i: ("lit", i)), (lambda c: ("call", c, []))
+    cells = [
+        {"id": 0, "body": L(1)},
+        {"id": 1, "body": ("mul", C(0), L(10))},
+        {"id": 2, "body": ("if", ("lt", C(0), L(5)), ("add", C(1), L(1)), L(0))},
+        {"id": 3, "body": ("add", C(1), L(100))},
+        {"id": 4, "body": L(7)},
+        {"id": 5, "body": ("if", ("lt", C(0), L(5)), L(1), ("raise", 0))},
+        {"id": 6, "body": ("add", C(0), L(100))},
+    ]
+    for c in cells:
+        c.update(cached=True, allow_none=False, nparams=0)
+    ev = lambda *ids: [["eval", str(i)] for i in ids]      # noqa: E731
+    hists = {
+        "two leaves": ev(2, 3, 4) + [["set", "0", "=", "2"]] + ev(1, 2, 3, 4),
+        "non-leaf dependent not called again": ev(2) + [["set", "0", "=", "9"]] + ev(1, 2),
+        "failing recomputation, one target": ev(5) + [["set", "0", "=", "9"]] + ev(5, 0) + [["set", "0", "=", "3"]] + ev(5),
+        "failing recomputation, two targets": ev(6, 5) + [["set", "0", "=", "9"]] + ev(6, 5),
+        "overwrite of an input with dependents": ev(3, 2) + [["set", "0", "=", "2"], ["set", "0", "=", "4"], ["set", "1", "=", "5"]] + ev(3, 2),
+    }
+    return [{"cells": [dict(c) for c in cells], "refs": {0: 1, 1: 2, 2: 3, 3: 4}, "n_rn": 2, "maxdepth": None,
+             "ops": ops, "label": "recalc/" + label} for label, ops in hists.items()]
+
+
 def run(ctx, out):
-    stats = X.run_family(ctx, out, CFG, oracle, 120, 2000, structured=scenario_cases() + spelled_edit_cases())
+    stats = X.run_family(ctx, out, CFG, oracle, 120, 2000, structured=scenario_cases() + spelled_edit_cases() + recalc_cases())
     overwrite_equal(out, stats)
     out.coverage["input_distribution"]["overwrite_equal_scenarios"] = stats["overwrite_equal_scenarios"]
     out.assumptions.append("recalculation option on: modelx evaluates the former leaf dependents in the iteration "
